@@ -85,6 +85,11 @@ CHECKS = {
         technique='CrossHair (z3) differential execution of converted programs whose identifiers are renamed adversarially to the converter vocabulary; solver-exhausted unit harness on Namer.new_symbol',
         text='C01-class programs with every user identifier renamed to a name the converter likes to generate (plus one write-only local and one read-only global from the vocabulary) still convert and behave identically for all inputs within the bounds; Namer.new_symbol never returns a name from the namespace, the reserved set or its own history, for all subsets of a per-root universe.',
         note='Identifier assignments are seeded random. Concrete side condition (scope-exact comparison of generated names with user identifiers) only for programs without nested user scopes. A user variable named ag__ is outside.'),
+    'C12': dict(
+        level='translation_validation', engine='xh-diff', design='DESIGN.md §2 C12',
+        technique='CrossHair (z3) differential execution of malt.convert(...)(f) vs f on programs with one injected failing statement; inputs chosen by z3 select which statement fails and in which iteration; traceback of the original is the location oracle',
+        text='For every enumerated program with an injected failure (11 failure kinds, any function/nesting position) and all inputs within the bounds: same outcome kind, exception type per the documented re-creation rules (three-way rule), original message contained, and ag_error_metadata.translated_stack restricted to the user file equals the original traceback user frames (innermost first, one per separately converted function). Unit harness: _stack_trace_inside_mapped_code on symbolic frame lists (<=4 frames).',
+        note='The static claim about every source-map entry is validated only through failing executions. Failures inside try bodies with handlers in the same function are not generated.'),
 }
 
 NOT_APPLICABLE = {
